@@ -31,6 +31,12 @@ class ClientSelectShim:
             if s.closed:
                 raise ValueError("file descriptor cannot be a negative integer (-1)")
         if wlist and not rlist:
+            if timeout is not None and getattr(cs, "busy_sends", 0) > 0:
+                # the manager is momentarily not reading and the client's send buffer is full: a wait with a finite timeout
+                # expires (a blocking wait simply lasts until the manager reads again)
+                cs.busy_sends -= 1
+                VTIME.now += max(0.0, float(timeout))
+                return [], [], []
             return [], wlist, []
         if not rlist:
             return [], [], []
